@@ -80,7 +80,8 @@ fn round_trip(b: usize, regs: Vec<u8>, seed: u64, u: &[u64], what: &str) -> Resu
 }
 
 fn b_values() -> Vec<&'static str> {
-    vec!["-1", "0", "3", "4", "5", "18", "19", "63", "64", "65", "4294967296", "18446744073709551615", "4.0", "\"4\"", "null", "true", "[4]"]
+    // 260 / 65540 / 4294967300 / 2^33+4 / 2^63+4: values that become 4 when truncated to 8 / 16 / 32 / 33 / 63 bits
+    vec!["-1", "0", "3", "4", "5", "18", "19", "63", "64", "65", "260", "65540", "4294967296", "4294967300", "8589934596", "9223372036854775812", "18446744073709551615", "4.0", "\"4\"", "null", "true", "[4]"]
 }
 
 fn reg_docs(b_guess: Option<u32>) -> Vec<(String, String)> {
@@ -276,6 +277,6 @@ fn main() {
     run.ev.set("documents", json!({"total": docs, "accepted (must be valid and usable)": acc, "rejected": rej}));
     run.ev.set("exhaustive", json!(true));
     run.ev.set("samples", json!([{"document": "{\"registers\":[0,0,0],\"b\":4,\"buildhasher\":{\"seed\":7}}", "expected": "Err, or a sketch with 4 <= b <= 18 and 2^b registers on which add/count/merge/serialise do not panic"}]));
-    run.ev.set("rule", json!("round trip: every b x {empty, saturated, 255-filled, i mod 7, contents after one/two boundary adds} x 2 hasher seeds, then further adds and merges on both copies; rejection: b in 17 values x registers (length in {0,1,15,16,17,31,32,33,2^b-1,2^b,2^b+1,2^b/2,3*2^b/2,2*2^b,3*2^b,4*2^b,5*2^b} x 4 fills + out-of-range entries + wrong types) x {6 field orders, 3 omissions, 3 duplicates, unknown field, array form}"));
+    run.ev.set("rule", json!("round trip: every b x {empty, saturated, 255-filled, i mod 7, contents after one/two boundary adds} x 2 hasher seeds, then further adds and merges on both copies; rejection: b in 22 values (incl. values that truncate to 4 at 8/16/32/33/63 bits) x registers (length in {0,1,15,16,17,31,32,33,2^b-1,2^b,2^b+1,2^b/2,3*2^b/2,2*2^b,3*2^b,4*2^b,5*2^b} x 4 fills + out-of-range entries + wrong types) x {6 field orders, 3 omissions, 3 duplicates, unknown field, array form}"));
     run.finish();
 }
